@@ -17,7 +17,7 @@ from .common import Out, drop_each, with_, REAL_ALL, STUB_ALL
 ID = "C12"
 TIERS = {"quick": {"n": 2500, "chunk": 60}, "thorough": {"n": 100000, "chunk": 300, "wall_cap": 3000}}
 RULE = (
-    "each scenario is a seeded history (3-8 ops, 1 in 8 up to 20) over {add_named_paths of 1-5 generated members, identical re-add, replace, remove, restart; 15% of the adds first fail with the group-file write torn by ENOSPC after 0/50/90/100% and are retried} on 2 group names; "
+    "each scenario is a seeded history (3-8 ops, 1 in 8 up to 20) over {add_named_paths of 1-5 generated members, identical re-add, replace, remove, restart; 15% of the adds first fail with the group-file write torn by ENOSPC after 0/50/90/100% and are retried, others have their k-th (1-10) file-system call inside the named-paths area fail with EIO and are retried} on 2 group names; "
     "members carry id/Id/ID/name/Name/NAME identities (some with a lower-precedence decoy key equal to a sibling's identity) in a leading, second or trailing outer comment, inner comments (some looking like metadata) and newlines; after every op all lookups "
     "are compared with the model via a live and a fresh instance and the manifest is read from disk. Non-trivial = some group was re-added or replaced, or a lookup by identity was compared; "
     "distinct = distinct op-class sequences (op, group, change class, member count, identity spellings used)."
@@ -28,7 +28,7 @@ ASSUMPTIONS = [
     "groups are added from lists of strings; from_file/from_dir/from_json loaders are not explored",
 ]
 REAL = REAL_ALL
-STUB = STUB_ALL + ["builtins.open during a torn add: the first write to a group.csvpaths file stores a prefix and raises ENOSPC (disk-full fault); the add is then retried"]
+STUB = STUB_ALL + ["builtins.open / os.* / shutil.* during an add with fault_at=k: the k-th call naming a path inside the named-paths area raises EIO before doing anything (verifsim/iofault.py)", "builtins.open during a torn add: the first write to a group.csvpaths file stores a prefix and raises ENOSPC (disk-full fault); the add is then retried"]
 
 GROUPS = ["g0", "g1"]
 KEYS = ["id", "Id", "ID", "name", "Name", "NAME"]
@@ -128,11 +128,18 @@ def generate(rng, i, tier):
             if rng.random() < 0.15:
                 # the write of the group file dies part-way (disk full); the caller tries again at once
                 opsl[-1]["torn"] = rng.choice([0.0, 0.5, 0.9, 1.0])
+            elif rng.random() < 0.2:
+                # the k-th file-system call the add makes inside the named-paths area fails (EIO); the caller tries again
+                opsl[-1]["fault_at"] = rng.randint(1, 10)
+                opsl[-1]["after_fault"] = rng.choice(["retry", "retry", "revert"])
         elif k == "readd":
             ms = rng.choice(pool[g][-2:])
             opsl.append({"op": "add", "group": g, "members": ms})
             if rng.random() < 0.15:
                 opsl[-1]["torn"] = rng.choice([0.0, 0.5, 0.9, 1.0])
+            elif rng.random() < 0.2:
+                opsl[-1]["fault_at"] = rng.randint(1, 10)
+                opsl[-1]["after_fault"] = rng.choice(["retry", "retry", "revert"])
         elif k == "remove":
             opsl.append({"op": "remove", "group": g})
         elif rng.random() < 0.4:
@@ -150,6 +157,10 @@ def reductions(sc):
         if op["op"] == "add" and op.get("via") == "file":
             c = with_(sc)
             c["ops"][j]["via"] = "list"
+            yield c
+        if op["op"] == "add" and op.get("fault_at") is not None:
+            c = with_(sc)
+            del c["ops"][j]["fault_at"]
             yield c
         if op["op"] == "add" and op.get("torn") is not None:
             c = with_(sc)
@@ -358,6 +369,29 @@ def execute(sc):
                         if torn["fired"]:
                             out.fault("torn_group_write")
                             cls.append("torn-then-retried")
+                    if op.get("fault_at") is not None:
+                        from ..iofault import IOFault
+
+                        with IOFault(at=op["fault_at"], under=[os.path.join("inputs", "named_paths")]) as fst:
+                            try:
+                                with ops.quiet():
+                                    cs.paths_manager.add_named_paths(name=g, paths=texts)
+                            except Exception as e:  # noqa: BLE001
+                                if not fst["fired"] or (not ops.in_repo(e) and not isinstance(e, OSError)):
+                                    raise
+                        if fst["fired"]:
+                            out.fault("io_error")
+                            out.extra.setdefault("io_fault_sites", [])
+                            out.extra["io_fault_sites"].append(fst["what"].split(" ")[0] + " " + os.path.basename(fst["what"]))
+                            cls.append("fault@" + fst["what"].split(" ")[0] + ":" + os.path.basename(fst["what"]))
+                            out.probe("add retried after an I/O error inside it")
+                            if op.get("after_fault") == "revert" and g in model and op.get("via") != "file":
+                                # instead of retrying, the caller puts the previous content back: afterwards the group is what
+                                # it was, and nothing was registered in between (the failed add never returned)
+                                out.probe("previous content put back after a failed add")
+                                cls.append("reverted")
+                                op = dict(op, members=model[g]["members"])
+                                texts = [m["text"] for m in op["members"]]
                     # (the retry, or the only attempt)
                     with ops.quiet():
                         cs.paths_manager.add_named_paths(name=g, paths=texts)
@@ -401,6 +435,8 @@ def execute(sc):
         out.probe("identical re-add", False)
         out.probe("replace", False)
         out.probe("group added from a file", False)
+        out.probe("add retried after an I/O error inside it", False)
+        out.probe("previous content put back after a failed add", False)
         out.states.append(json.dumps(sorted((g, st["versions"], [m["ident"] for m in st["members"]]) for g, st in model.items())))
         out.runs = len(sc["ops"])
         out.log("tree", W.tree_digest(("inputs",)))
